@@ -5,6 +5,6 @@ From C11 Require Import Model.
 Extraction "model.ml" drv_b2n drv_n2b drv_z_of_n drv_n_of_z drv_nat_of_n drv_n_of_nat
   compact_encode compact_decode
   has_type wf_ty multi_map min_size
-  spec_encode encode run_decode decode_res decode_cost current pinned ideal
+  spec_encode encode encode_go some_enum has_uint57 run_decode decode_res decode_cost current pinned ideal
   field_order tags_distinct
-  value_eqb c11_model_roundtrip c11_prop has_uint57.
+  value_eqb c11_model_roundtrip c11_prop.
